@@ -423,7 +423,8 @@ func moveOutFile(w *bytes.Buffer, param *syntax.StructMember,
 		// Unless an earlier post-processing run, which was interrupted before
 		// it could leave the symlink behind, already moved it to outs/.
 		outPath := path.Join(outsPath, param.GetOutFilename())
-		if oinfo, oerr := os.Lstat(outPath); oerr == nil && oinfo.Mode().IsRegular() {
+		if oinfo, oerr := os.Lstat(outPath); oerr == nil &&
+			(oinfo.Mode().IsRegular() || oinfo.IsDir()) {
 			if relPath, rerr := filepath.Rel(filepath.Dir(filePath), outPath); rerr == nil {
 				_ = os.Symlink(relPath, filePath)
 			}
